@@ -294,7 +294,23 @@ func GenLinkObj(t *rapid.T, s StrSrc) map[string]any {
 		urlKey = "href"
 	}
 	if maybe(t, "linkurl", 85) {
-		m[urlKey] = "https://x.test/" + s(t, "linkpath")
+		// the string source reaches every component of the address: path, query, fragment, authority, opaque part, all of it
+		switch rapid.SampledFrom([]int{0, 0, 0, 1, 2, 3, 4, 5, 6}).Draw(t, "urlpart") {
+		case 0:
+			m[urlKey] = "https://x.test/" + s(t, "linkpath")
+		case 1:
+			m[urlKey] = "https://x.test/p?q=" + s(t, "linkquery")
+		case 2:
+			m[urlKey] = "https://x.test/p#" + s(t, "linkfragment")
+		case 3:
+			m[urlKey] = "mailto:" + s(t, "linkopaque")
+		case 4:
+			m[urlKey] = "https://" + s(t, "linkhost") + "/p"
+		case 5:
+			m[urlKey] = "https://user:" + s(t, "linkuserinfo") + "@x.test/"
+		default:
+			m[urlKey] = s(t, "linkwhole")
+		}
 	}
 	if maybe(t, "linkname", 60) {
 		putNL(t, m, "name", s(t, "linkname"), s)
